@@ -102,13 +102,19 @@ Inductive res := Ok | ENotFound | EExists | EHang.
    were never stored; skipLinked: a rejected *variant* of Delete that queues a referrer only
    when all its predecessors are already queued (see C09_delete_skip_linked_refuted);
    fixHold: Delete queues a referrer of a deleted manifest only once no surviving node lists
-   it any more (predecessors that are referrers of its own do not hold it). *)
+   it any more (predecessors that are referrers of its own do not hold it);
+   fixSubjM: gcIndex keeps a referrer only for a subject that is a manifest (audit F-A);
+   fixEntry: a predecessor holds a node iff the node is one of its entries other than the
+   subject field, even if it also names it as subject (audit F-C). *)
 Record cfg := { fixF1 : bool; fixF3 : bool; fixF4 : bool; fixF13 : bool;
-                fixStale : bool; fixLeaf : bool; skipLinked : bool; fixHold : bool }.
+                fixStale : bool; fixLeaf : bool; skipLinked : bool; fixHold : bool;
+                fixSubjM : bool; fixEntry : bool }.
 Definition cfg_fixed : cfg := {| fixF1 := true; fixF3 := true; fixF4 := true; fixF13 := true;
-     fixStale := true; fixLeaf := true; skipLinked := false; fixHold := true |}.
+     fixStale := true; fixLeaf := true; skipLinked := false; fixHold := true;
+     fixSubjM := true; fixEntry := true |}.
 Definition cfg_orig : cfg := {| fixF1 := false; fixF3 := false; fixF4 := false; fixF13 := false;
-     fixStale := false; fixLeaf := false; skipLinked := false; fixHold := false |}.
+     fixStale := false; fixLeaf := false; skipLinked := false; fixHold := false;
+     fixSubjM := false; fixEntry := false |}.
 
 Inductive op :=
 | OPush (n : nat) | OTag (n t : nat) | OUntag (t : nat) | ODelete (n : nat)
@@ -202,8 +208,9 @@ Definition entries (p : nat) : list nat :=
   match subject p with Some s => remove_one s (succ p) | None => succ p end.
 
 (* Store.heldBySurvivor: a predecessor that is not queued and lists r among its entries *)
-Definition held (g seen : list nat) (r : nat) : bool :=
-  existsb (fun p => negb (memb p seen) && memb r (entries p)) (preds g r).
+Definition held (en : bool) (g seen : list nat) (r : nat) : bool :=
+  existsb (fun p => negb (memb p seen) &&
+                    (if en then memb r (entries p) else negb (has_subject r p))) (preds g r).
 
 (* ---------- Store.Delete: the work queue ----------
    [seen] = everything ever queued (the repaired code queues a node once: F4);
@@ -235,8 +242,8 @@ Fixpoint delete_loop (c : cfg) (ord : nat -> list nat -> list nat) (fuel k : nat
         let seen1 := seen ++ fresh in
         let pend1 := if fixHold c then pending ++ ord k refs else [] in
         let cand := dedup (filter (fun r => negb (memb r seen1)) pend1) in
-        let ready := filter (fun r => negb (held (gnodes st') seen1 r)) cand in
-        let rest := filter (held (gnodes st') seen1) cand in
+        let ready := filter (fun r => negb (held (fixEntry c) (gnodes st') seen1 r)) cand in
+        let rest := filter (held (fixEntry c) (gnodes st') seen1) cand in
         delete_loop c ord fuel' (S k) st' (q ++ fresh ++ ready) (seen1 ++ ready) rest
       | (st', _, e) => (st', e)
       end
@@ -282,14 +289,14 @@ Definition candidates (ix : list (ref * nat)) : list nat :=
 
 (* the subject walk of the repaired code: follow manifestutil.Subject while the
    current manifest can be fetched; true when a subject is already in the new graph *)
-Fixpoint walk (bl g : list nat) (fuel cur : nat) : option bool :=
+Fixpoint walk (sm : bool) (bl g : list nat) (fuel cur : nat) : option bool :=
   match fuel with
   | O => None
   | S f =>
     if memb cur bl then
       match subject cur with
       | None => Some false
-      | Some s => if memb s g && manifest s then Some true else walk bl g f s
+      | Some s => if memb s g && (negb sm || manifest s) then Some true else walk sm bl g f s
       end
     else Some false
   end.
@@ -307,7 +314,7 @@ Fixpoint walk_orig (bl g : list nat) (fuel cur : nat) : option bool :=
   end.
 
 Definition do_walk (c : cfg) (bl g : list nat) (n : nat) : option bool :=
-  if fixF1 c then walk bl g (S n) n else walk_orig bl g 64 n.
+  if fixF1 c then walk (fixSubjM c) bl g (S n) n else walk_orig bl g 64 n.
 
 (* accumulator of one pass: new graph, kept referrers, changed, hang *)
 Definition keep_step (c : cfg) (bl : list nat) (acc : list nat * list nat * bool * bool) (n : nat)
